@@ -20,6 +20,7 @@ import (
 	"bytes"
 	"context"
 	"errors"
+	"net/url"
 	"sync"
 	"time"
 
@@ -164,6 +165,13 @@ func (p *provider) watchChanges(ctx context.Context, rsf RuleSetFetcher) error {
 		if !errors.Is(err, config2.ErrEmptyRuleSet) &&
 			(errors.Is(err, heimdall.ErrInternal) || errors.Is(err, heimdall.ErrConfiguration)) {
 			return err
+		}
+
+		var networkErr *url.Error
+		if errors.As(err, &networkErr) {
+			// network issues, like dns errors, timeouts and alike. The previously
+			// received rule set (if any) is preserved
+			return nil
 		}
 
 		ruleSet = &config2.RuleSet{
